@@ -1,7 +1,7 @@
 """C20 — alarms (DESIGN §4 C20)."""
 import glob
 from tbxlint.facts import extract, AnalysisBroken, MODULES
-from tbxlint import locks, q, ival, rd
+from tbxlint import locks, q, ival, rd, absint
 
 AL = 'tbox::alarm::Alarm'
 
@@ -172,6 +172,55 @@ def r5(ctx, prog):
         raise AnalysisBroken('expected >=4 calculateNextLocalTimeSec overrides, found %d' % n)
 
 
+# (function, days that must be offered strictly after "now"): one full cycle of the configuration's period
+SCANS = {'tbox::alarm::WeeklyAlarm::calculateNextLocalTimeSec': (7, 'a week: every weekday of the mask'),
+         'tbox::alarm::WorkdayAlarm::calculateNextLocalTimeSec': (366, 'a year of calendar days')}
+
+
+def r6(ctx, prog):
+    ctx.rule('C20.R6', 'A10 (interval abstract interpretation): the day scan offers a full cycle of strictly-future candidate days on every path: '
+             'iterations (bound - largest start) minus the first day when it can already have passed >= the period, and the candidate advances one day per iteration', floor=2)
+    for name, (need, what) in SCANS.items():
+        f = prog.fn1(name)
+        it = absint.Interp(f).run()
+        cur, out = f.params[0], f.params[1]
+        loops = [st for st in f.stmts if st and st['k'] == 'ForStmt' and st.get('cond') is not None]
+        if len(loops) != 1:
+            raise AnalysisBroken('%s: expected one scan loop, found %d' % (name, len(loops)))
+        lp = loops[0]
+        cs = f.s(f.strip_casts(lp['cond']))
+        if not (cs and cs['k'] == 'BinaryOperator' and cs.get('op') in ('<', '<=')):
+            raise AnalysisBroken('%s: scan loop condition is not `i < N`' % name)
+        iv_d = f.s(f.strip_casts(cs['ch'][0]))
+        bound = it.arith(it.at(lp['cond']) or {}, cs['ch'][1])
+        if not (iv_d and iv_d['k'] == 'DeclRefExpr' and bound and bound[0] == bound[1]):
+            raise AnalysisBroken('%s: scan loop counter/bound not recognised' % name)
+        upper = bound[0] + (1 if cs['op'] == '<=' else 0)
+        # value of the counter when the loop is entered: state on the edge into the loop head that is not the back edge
+        init = None
+        for st in f.stmts:
+            if st and st['k'] == 'DeclStmt' and any(d.get('d') == iv_d['d'] for d in st['decls']):
+                d = [d for d in st['decls'] if d.get('d') == iv_d['d']][0]
+                env = it.at(st['i'])
+                init = it.arith(env or {}, d['init']) if d.get('init') is not None else None
+        if init is None:
+            raise AnalysisBroken('%s: scan loop counter has no initialiser' % name)
+        # can the first offered day be rejected because its time already passed?  (the curr < candidate test sits inside the loop)
+        body = set(f.walk(lp['body']))
+        in_loop_test = any(st and st['i'] in body and st['k'] == 'BinaryOperator' and st.get('op') in ('<', '>', '<=', '>=') and
+                           {f.s(f.strip_casts(c)).get('d') for c in st['ch']} == {cur['d'], out['d']} for st in f.stmts)
+        offered = upper - init[1] - (1 if in_loop_test and init[0] == 0 else 0)
+        ctx.ob('C20.R6', '%s|full-cycle' % name, offered >= need,
+               'scan offers >= %d strictly-future days (bound %d, start in [%d, %d]%s); needed %d = %s' % (offered, upper, init[0], init[1], ', first may have passed' if in_loop_test else '', need, what)
+               if offered >= need else
+               'scan offers only %d strictly-future days on some path (bound %d, start up to %d%s) but the configuration\'s period needs %d (%s): a matching day exists that is never '
+               'examined and the alarm reports "no next instant"' % (offered, upper, init[1], ', first may have passed' if in_loop_test else '', need, what), where=f.loc(lp['i']))
+        # the candidate moves forward exactly one day per iteration
+        steps = [st for st in f.stmts if st and st['i'] in body and st['k'] == 'CompoundAssignOperator' and st.get('op') == '+=' and f.s(f.strip_casts(st['ch'][0])).get('d') == out['d']]
+        okstep = len(steps) == 1 and (it.arith({}, steps[0]['ch'][1]) == (86400, 86400)) and f.cfg.postdominates(q.pt(f, steps[0]), f.cfg.point_of(lp['cond'])) is not None
+        ctx.ob('C20.R6', '%s|day-step' % name, okstep, 'the candidate advances by 86400 s once per rejected day', where=f.loc(steps[0]['i'] if steps else lp['i']))
+
+
 def run(ctx):
     prog = extract('ALL' if ctx.tier == 'thorough' else scope_units())
     ctx.guard(r1, ctx, prog)
@@ -179,4 +228,5 @@ def run(ctx):
     ctx.guard(r3, ctx, prog)
     ctx.guard(r4, ctx, prog)
     ctx.guard(r5, ctx, prog)
+    ctx.guard(r6, ctx, prog)
     return prog
